@@ -428,6 +428,8 @@ def run(ctx, rep):
     from rules import c04_magnitude
     c04_magnitude.run(ctx, rep, rid="R-C12-magnitude")
     c04_magnitude.run_errrun(ctx, rep, rid="R-C12-errrun")
+    from rules.c14 import rule_samestr
+    rule_samestr(ctx, rep, rid="R-C12-samestr")
     from rules import c04_backtrack
     c04_backtrack.run(ctx, rep, rid="R-C12-backtrack")
     from rules import c04_recursion
